@@ -313,33 +313,43 @@ fn c14_writebuf_data_drain_by_chunks() {
     kani::cover!(l2 == 0);
 }
 
-// vp: props=C14; tag=C14.writebuf.single-varint; kind=complete; tier=quick
-// GOAWAY (sent by shutdown) and the two push-id frames: complete frame in the header buffer, no payload
+// vp: props=C14; tag=C14.writebuf.goaway; kind=complete; tier=quick
+// GOAWAY (sent by shutdown): a complete frame 07 ++ varint(|varint(id)|) ++ varint(id) in the header
+// buffer, no payload, for every id
 #[kani::proof]
 #[kani::unwind(25)]
 #[kani::stub(fastrand::u64, stub_fastrand_u64)]
-fn c14_writebuf_from_frame_goaway_cancelpush_maxpushid() {
+fn c14_writebuf_from_frame_goaway() {
     let id: u64 = kani::any();
     kani::assume(id < TWO62);
-    let a = check_with_one_advance(
-        W::from(Frame::Goaway(VarInt::from_u64(id).unwrap())),
-        &spec_frame_single_varint(SPEC_FT_GOAWAY, id),
-        None,
-    );
-    check_view(
-        &W::from(Frame::CancelPush(PushId::try_from(id).unwrap())),
-        &spec_frame_single_varint(SPEC_FT_CANCEL_PUSH, id),
-        None,
-        0,
-    );
-    check_view(
-        &W::from(Frame::MaxPushId(PushId::try_from(id).unwrap())),
-        &spec_frame_single_varint(SPEC_FT_MAX_PUSH_ID, id),
-        None,
-        0,
-    );
+    let want = spec_frame_single_varint(SPEC_FT_GOAWAY, id);
+    let a = check_with_one_advance(W::from(Frame::Goaway(VarInt::from_u64(id).unwrap())), &want, None);
     kani::cover!(id >= 1 << 30 && a == 10);
     kani::cover!(id == 0 && a == 1);
+}
+
+// vp: props=C14; tag=C14.writebuf.cancel-push; kind=complete; tier=quick
+#[kani::proof]
+#[kani::unwind(25)]
+#[kani::stub(fastrand::u64, stub_fastrand_u64)]
+fn c14_writebuf_from_frame_cancel_push() {
+    let id: u64 = kani::any();
+    kani::assume(id < TWO62);
+    let want = spec_frame_single_varint(SPEC_FT_CANCEL_PUSH, id);
+    let a = check_with_one_advance(W::from(Frame::CancelPush(PushId::try_from(id).unwrap())), &want, None);
+    kani::cover!(want.n == 6 && a == 6);
+}
+
+// vp: props=C14; tag=C14.writebuf.max-push-id; kind=complete; tier=quick
+#[kani::proof]
+#[kani::unwind(25)]
+#[kani::stub(fastrand::u64, stub_fastrand_u64)]
+fn c14_writebuf_from_frame_max_push_id() {
+    let id: u64 = kani::any();
+    kani::assume(id < TWO62);
+    let want = spec_frame_single_varint(SPEC_FT_MAX_PUSH_ID, id);
+    let a = check_with_one_advance(W::from(Frame::MaxPushId(PushId::try_from(id).unwrap())), &want, None);
+    kani::cover!(want.n == 4 && a == 0);
 }
 
 // vp: props=C14; tag=C14.writebuf.grease-frame; kind=complete; tier=quick
